@@ -209,7 +209,7 @@ func (g *gen) index(n int, d int) string {
 		return fmt.Sprint(g.r.Intn(n))
 	}
 	if g.chance(4) {
-		return g.intExpr(d - 1) // may be out of range: run-time panic
+		return "(" + g.intExpr(d-1) + " + zero)" // may be out of range: run-time panic (zero keeps it non-constant)
 	}
 	return fmt.Sprintf("((%s)%%%d+%d)%%%d", g.intExpr(d-1), n, n, n)
 }
@@ -666,8 +666,8 @@ func (g *gen) closureDecl() {
 	g.budget = 2 + g.r.Intn(3)
 	hide := g.hideFn(v)
 	g.block(2)
-	hide()
 	g.w("return %s", clamp(g.intExpr(2)))
+	hide()
 	g.inLoop, g.budget = saveLoop, saveBudget
 	g.pop()
 	g.ind--
